@@ -13,7 +13,8 @@ RUN_IMPORT = "Router.UrlRun"
 RULE = ("cases drawn from one PRNG (VERIF_SEED): op0 escape(text), op1 unescape(raw), op2 "
         "RequestUrl::parse('/path?query#frag') with raw escapes (valid, invalid-UTF-8, nested %25xx, "
         "truncated, '+', empty fields), op3 ParamsMap -> to_query_string -> parse, op4 raw route "
-        "parameters collected into a ParamsMap; a separate malformed stream (arbitrary strings as URL) is "
+        "parameters collected into a ParamsMap, op5/op6 a real nested (/:a/:b) and flat (/u/:id) router server-rendered "
+        "for a request path with raw segments, reading use_params_map() in the matched component; a separate malformed stream (arbitrary strings as URL) is "
         "checked for panics only. A case is non-trivial when the model's answer differs from the literal "
         "input text (some decoding/encoding actually happened) ; distinct = distinct case hash.")
 TRUSTED = [
@@ -155,8 +156,10 @@ def generate(rng, tier):
         elif r < 0.88:
             pairs = [[rng.choice(["id", "x", "y"]), raw(rng, 6)] for _ in range(rng.choice([1, 1, 2, 3]))]
             yield dict(case=C.norm([4, pairs]), kind="route-params")
-        elif r < 0.93:
+        elif r < 0.91:
             yield dict(case=C.norm([5, [seg(rng), seg(rng)]]), kind="nested-route-params")
+        elif r < 0.94:
+            yield dict(case=C.norm([6, seg(rng)]), kind="flat-route-params")
         else:
             s = "".join(rng.choice(TEXT_CHARS + list("/:@[]?#%")) for _ in range(rng.randint(0, 10)))
             yield dict(case=C.norm([2, s]), kind="malformed-url", compare=False)
@@ -248,6 +251,11 @@ def oracle(item, impl):
         if impl and impl[0] in (-1, -2):
             return "could not build / re-parse the map: %r" % (impl,)
         return None if impl[1] == arg else "to_query_string() + parse is not the identity on this map"
+    if op == 6:
+        if impl and impl[0] == -3:
+            return "flat route did not render exactly one matched view: %r" % (impl,)
+        return None if impl == [[[105, 100], [lossy(pct_decode(bytes(arg)))]]] else \
+            "flat route parameter is not the once-decoded raw segment"
     if op == 5:
         if impl and impl[0] == -3:
             return "nested route did not render exactly one leaf: %r" % (impl,)
@@ -284,9 +292,9 @@ def describe(it):
     case = it["case"]
     op = case[0]
     names = {0: "escape", 1: "unescape", 2: "RequestUrl::parse", 3: "map->query->parse", 4: "collect raw params",
-             5: "nested router /:a/:b use_params_map"}
+             5: "nested router /:a/:b use_params_map", 6: "flat router /u/:id use_params_map"}
     a = case[1]
-    if op in (0, 1, 2):
+    if op in (0, 1, 2, 6):
         return "%s(%r)" % (names[op], C.show_bytes(a))
     if op == 5:
         return "%s(/%s/%s)" % (names[op], C.show_bytes(a[0]), C.show_bytes(a[1]))
@@ -341,6 +349,8 @@ def valid_case(item):
             return all(_utf8(k) and _utf8(v) for k, v in arg)
         if op == 5:
             return len(arg) == 2 and _seg_ok(arg[0]) and _seg_ok(arg[1])
+        if op == 6:
+            return _seg_ok(arg)
     except Exception:
         return False
     return False
